@@ -1479,8 +1479,14 @@ class Normalizer:
             if recv[0] == 'g' and recv[1] in self.module_aliases and f.attr in self.module_funcs:
                 return self.fn_call(f.attr, args, kwargs)
             m = f.attr
-            if recv == ('p', 0) and m in self.self_methods and self.inliner is not None and not kwargs:
-                t = self.inliner.instantiate(self.self_methods[m], (recv,) + args, self)
+            if m in self.self_methods and self.inliner is not None and not kwargs:
+                hnode = self.inliner.funcs.get(self.self_methods[m])
+                static = hnode is not None and any(isinstance(d_, ast.Name) and d_.id == 'staticmethod' for d_ in getattr(hnode, 'decorator_list', []))
+                t = None
+                if static and (recv == ('p', 0) or recv[0] in ('g', 'undef', 'k')):
+                    t = self.inliner.instantiate(self.self_methods[m], args, self)          # Class._h(...) / self._h(...) of a static helper
+                elif recv == ('p', 0) and not static:
+                    t = self.inliner.instantiate(self.self_methods[m], (recv,) + args, self)
                 if t is not None:
                     return t
             if m == 'copy' and not args:
